@@ -131,9 +131,10 @@ def document(draw):
     if len(tables) > 1 and draw(st.integers(0, 3)) == 0:
         t0, t1 = tables[0], tables[1]
         x = draw(st.from_regex(r'[A-Z]{1,3}', fullmatch=True))
-        new1 = t0['name'].upper() + x
+        sep = draw(st.sampled_from(['', '_']))
+        new1 = t0['name'].upper() + sep + x
         c1 = t1['cols'][0]
-        newc = x + c1['name']
+        newc = x + sep + c1['name']
         others = {t['name'].upper() for t in tables[2:]} | {e.upper() for e in enums} | {t0['name'].upper()}
         if new1 not in others and newc not in [c['name'] for c in t0['cols']] and newc.lower() not in Y.RESERVED and new1.lower() not in Y.RESERVED:
             t1['name'] = new1 if t0['name'].isupper() or draw(st.booleans()) else new1.lower()
